@@ -297,15 +297,11 @@ fn batch(prop: &str, tier: Tier, seed: u64, runs: u64, threads: usize, trace_has
             harness_err.store(true, Ordering::Relaxed);
             continue;
         }
-        if let Some(k) = known.iter().find(|k| k.prop == prop && k.class == *class) {
-            println!("KNOWN-FINDING: property={prop} class={class} {}", k.text);
-            known_seen.push(class.clone());
-            continue;
-        }
+        let is_known = known.iter().find(|k| k.prop == prop && k.class == *class);
         let min = minimise(prop, &f.case, class);
         let o2 = scen::replay(prop, &min);
         let v2 = o2.viol.clone().unwrap_or(f.viol.clone());
-        let path = format!("replays/{prop}-{seed}-{}-{}.json", f.run, sanitize(class));
+        let path = if is_known.is_some() { format!("replays/KNOWN-{prop}-{}.json", sanitize(class)) } else { format!("replays/{prop}-{seed}-{}-{}.json", f.run, sanitize(class)) };
         let j = json!({
             "property": prop,
             "class": class,
@@ -322,6 +318,11 @@ fn batch(prop: &str, tier: Tier, seed: u64, runs: u64, threads: usize, trace_has
         });
         std::fs::write(&path, serde_json::to_string_pretty(&j).unwrap()).ok();
         let abs = std::fs::canonicalize(&path).map(|p| p.display().to_string()).unwrap_or(path.clone());
+        if let Some(k) = is_known {
+            println!("KNOWN-FINDING: property={prop} class={class} {} (replay {path})", k.text);
+            known_seen.push(class.clone());
+            continue;
+        }
         println!("violation class={class} run={} ops {} -> {} :: {}", f.run, f.case.len(), min.len(), v2.msg);
         println!("VIOLATION property={prop} replay={abs}");
         violations += 1;
